@@ -154,7 +154,7 @@ func (c *twoCtx) judge(what string, liars ...*liar) {
 	if ps := c.V.Panics(); len(ps) > 0 {
 		fail("c11-handler-panic", "the victim recovered a panic in an RPC handler: %s", ps[0])
 	}
-	if k, d := netsim.Audit("c11", c.t, c.V.CM); k != "" {
+	if k, d := netsim.AuditNode("c11", c.t, c.v0, c.V); k != "" {
 		fail(k, "%s (%s)", d, what)
 	}
 	if k, d := netsim.AuditTips("c11", c.t, c.v0, c.V.Tips()); k != "" {
@@ -276,7 +276,7 @@ func runPreseed(s Scen) (res result) {
 			}
 		}
 	}
-	if k, d := netsim.Audit("c11", t, V.CM); k != "" {
+	if k, d := netsim.AuditNode("c11", t, v0, V); k != "" {
 		res.fail = &failure{k, fmt.Sprintf("after a block pre-seeded by a relayed outline (stored: %v) was served again inside an instant-sync answer: %s", stored, d)}
 	}
 	waitRoundEnd(V) // let the failed round end before the honest peer appears
